@@ -72,6 +72,10 @@ type Operation struct {
 	// The commit index at the time the operation was submitted. Only applicable to
 	// linearizable and lease-based read-only operations.
 	readIndex uint64
+
+	// The number of heartbeat rounds that had been started when the operation was submitted.
+	// Only a round started later can verify the operation.
+	round uint64
 }
 
 type operationManager struct {
@@ -83,6 +87,9 @@ type operationManager struct {
 
 	// A flag that indicates whether a round of heartbeats should be sent to peers to confirm leadership.
 	shouldVerifyQuorum bool
+
+	// The number of heartbeat rounds started so far.
+	round uint64
 
 	// The lease for lease-based reads.
 	leaderLease *lease
@@ -100,6 +107,18 @@ func newOperationManager(leaseDuration time.Duration) *operationManager {
 func (r *operationManager) markAsVerified() {
 	for operation := range r.pendingReadOnly {
 		operation.quorumVerified = true
+	}
+	r.shouldVerifyQuorum = true
+}
+
+// markAsVerifiedBy marks the operations that were submitted before the heartbeat round
+// with the provided number was started as verified. A round that was already in flight when
+// an operation was submitted says nothing about leadership at the time of the submission.
+func (r *operationManager) markAsVerifiedBy(round uint64) {
+	for operation := range r.pendingReadOnly {
+		if operation.round < round {
+			operation.quorumVerified = true
+		}
 	}
 	r.shouldVerifyQuorum = true
 }
